@@ -75,40 +75,74 @@ def _is_format_call(e):
     return isinstance(e, ast.Call) and isinstance(e.func, ast.Attribute) and e.func.attr == "format" and isinstance(e.func.value, (ast.Constant, ast.JoinedStr))
 
 
-def propagate_templates(fn):
-    """copy propagation of local string templates: a local bound exactly once in the function to a string-building expression
-    (literal, f-string, literal.format(...), concatenation with a literal) whose own free names are never rebound is substituted
-    into its later uses, so `prefix = f"... {line}"; raise E(f"{prefix} ...")` reads like the one-piece message"""
-    stores = {}
-    for n in ast.walk(fn):
-        if isinstance(n, ast.Name) and isinstance(n.ctx, (ast.Store, ast.Del)):
-            stores[n.id] = stores.get(n.id, 0) + 1
-        elif isinstance(n, ast.arg):
-            stores[n.arg] = stores.get(n.arg, 0) + 1
-    cands = {}
-    for n in ast.walk(fn):
-        if isinstance(n, ast.Assign) and len(n.targets) == 1 and isinstance(n.targets[0], ast.Name) and stores.get(n.targets[0].id) == 1:
-            v = n.value
-            parts = fmt_parts(v)
-            if parts is None or not any(p[0] == "lit" for p in parts) or not any(p[0] == "expr" for p in parts):
+def _string_uses_only(stmt, x):
+    """every read of x inside stmt is a piece of a larger string: an f-string hole, an argument or the receiver of str.format, an operand
+    of a concatenation"""
+    parent = {}
+    for n in ast.walk(stmt):
+        for c in ast.iter_child_nodes(n):
+            parent[id(c)] = n
+    for n in ast.walk(stmt):
+        if isinstance(n, ast.Name) and n.id == x and isinstance(n.ctx, ast.Load):
+            p = parent.get(id(n))
+            if isinstance(p, ast.FormattedValue):
                 continue
-            free = {x.id for x in ast.walk(v) if isinstance(x, ast.Name)}
-            if all(stores.get(x, 0) <= 1 for x in free):
-                cands[n.targets[0].id] = (n, v)
-    if not cands:
-        return fn
+            if isinstance(p, ast.BinOp) and isinstance(p.op, ast.Add):
+                continue
+            if isinstance(p, ast.Attribute) and p.attr == "format" and isinstance(parent.get(id(p)), ast.Call):
+                continue
+            if isinstance(p, ast.Call) and isinstance(p.func, ast.Attribute) and p.func.attr == "format" and n in p.args and fmt_parts(p.func.value) is not None:
+                continue
+            return False
+    return True
 
-    class S(ast.NodeTransformer):
-        def visit_Name(self, node):
-            if isinstance(node.ctx, ast.Load) and node.id in cands:
-                a, v = cands[node.id]
-                if (node.lineno, node.col_offset) > (a.end_lineno or a.lineno, a.end_col_offset or 0):
-                    return ast.copy_location(copy.deepcopy(v), node)
-            return node
-    for _ in range(3):
-        fn = S().visit(fn)
-    ast.fix_missing_locations(fn)
-    return fn
+
+def propagate_templates(fn):
+    """block-local copy propagation of string templates: after `x = <string-building expression>` (literal, f-string, literal.format(...),
+    concatenation with a literal) the later statements of the same block read the expression instead of x, up to the first statement
+    that may rebind x or a name the expression reads.  `prefix = f"... {line}"; raise E(f"{prefix} ...")` reads like the one-piece message."""
+    def stores_in(node):
+        out = set()
+        for n in ast.walk(node):
+            if isinstance(n, ast.Name) and isinstance(n.ctx, (ast.Store, ast.Del)):
+                out.add(n.id)
+        return out
+
+    def fblock(stmts):
+        stmts = list(stmts)
+        for i, s in enumerate(stmts):
+            if not (isinstance(s, ast.Assign) and len(s.targets) == 1 and isinstance(s.targets[0], ast.Name)):
+                continue
+            x, v = s.targets[0].id, s.value
+            parts = fmt_parts(v)
+            if parts is None or not any(p[0] == "lit" for p in parts):
+                continue
+            if any(isinstance(n, (ast.Call,)) and not _is_format_call(n) and not (isinstance(n.func, ast.Attribute) and not n.args and not n.keywords) for n in ast.walk(v)):
+                continue                       # only pure pieces: names, attributes, accessor calls without arguments
+            free = {n.id for n in ast.walk(v) if isinstance(n, ast.Name)}
+            if x in free:
+                continue
+            # range of the propagation: up to the first statement that may rebind x or a name the expression reads
+            end = i + 1
+            partial = None
+            while end < len(stmts):
+                st = stores_in(stmts[end])
+                if st & (free | {x}):
+                    if isinstance(stmts[end], (ast.Assign, ast.AugAssign, ast.AnnAssign, ast.Expr, ast.Return, ast.Raise)):
+                        partial = end          # a simple statement reads its operands before it stores
+                    break
+                end += 1
+            rng = list(range(i + 1, end)) + ([partial] if partial is not None else [])
+            if not rng or not all(_string_uses_only(stmts[j], x) for j in rng):
+                continue
+            # x must not be read after the range either (otherwise it is a value in its own right, not a piece of a message)
+            if any(isinstance(n, ast.Name) and n.id == x and isinstance(n.ctx, ast.Load) for j in range(i + 1, len(stmts)) if j not in rng for n in ast.walk(stmts[j])):
+                continue
+            sub = _Sub({x: v})
+            for j in rng:
+                stmts[j] = sub.visit(stmts[j])
+        return stmts
+    return _map_blocks(fn, fblock)
 
 
 def starred_format(text, args):
@@ -303,6 +337,9 @@ class _Abort(Exception):
     pass
 
 
+_TMP = [0]
+
+
 def _tailify(stmts, k, after):
     """statements equivalent to: run stmts; at `return e` continue with k(e); when the block falls through continue with `after`
     (early returns turn into if/else nesting; the continuation is duplicated into the branches that reach it)"""
@@ -317,8 +354,33 @@ def _tailify(stmts, k, after):
             body = _tailify(s.body, k, rest)
             orelse = _tailify(s.orelse, k, rest)
             return out + [ast.copy_location(ast.If(test=s.test, body=body or [ast.Pass()], orelse=orelse), s)]
+        if isinstance(s, ast.Try) and _has_return(s) and not s.finalbody:
+            # `try: ...; return e` / returns inside handlers: the value is bound inside the try, the continuation runs in the else clause
+            # (where, as after the original return, the handlers no longer apply)
+            body = list(s.body)
+            if any(_has_return(b_) for b_ in body[:-1]):
+                raise _Abort()
+            rest = _tailify(stmts[i + 1:], k, after)
+            if isinstance(body[-1], ast.Return):
+                if s.orelse:
+                    raise _Abort()
+                _TMP[0] += 1
+                tmp = "_r%d" % _TMP[0]
+                val = body[-1].value if body[-1].value is not None else ast.Constant(value=None)
+                body = body[:-1] + [ast.copy_location(ast.Assign(targets=[ast.Name(id=tmp, ctx=ast.Store())], value=val), body[-1])]
+                orelse = k(ast.Name(id=tmp, ctx=ast.Load()))
+            elif _has_return(body[-1]):
+                raise _Abort()
+            else:
+                orelse = _tailify(s.orelse, k, rest)
+            handlers = []
+            for h in s.handlers:
+                h2 = copy.copy(h)
+                h2.body = _tailify(h.body, k, rest) or [ast.Pass()]
+                handlers.append(h2)
+            return out + [ast.copy_location(ast.Try(body=body, handlers=handlers, orelse=orelse, finalbody=[]), s)]
         if _has_return(s):
-            raise _Abort()              # return from inside a loop / try / with / match: not a tail shape
+            raise _Abort()              # return from inside a loop / with / match: not a tail shape
         out.append(s)
     return out + copy.deepcopy(after)
 
@@ -377,55 +439,179 @@ def desugar_match(fn):
 
 
 # ------------------------------------------------------------------------------------------------ loops over constant tables
+def _map_blocks(fn, fblock):
+    """apply fblock(list of statements) -> list of statements to every statement list of fn, innermost first"""
+    def rec(stmts):
+        for s in stmts:
+            for field in ("body", "orelse", "finalbody"):
+                sub = getattr(s, field, None)
+                if isinstance(sub, list) and sub and isinstance(sub[0], ast.stmt):
+                    setattr(s, field, rec(sub))
+            if isinstance(s, ast.Try):
+                for h in s.handlers:
+                    h.body = rec(h.body)
+            if isinstance(s, ast.Match):
+                for c in s.cases:
+                    c.body = rec(c.body)
+        return fblock(stmts)
+    fn.body = rec(fn.body)
+    ast.fix_missing_locations(fn)
+    return fn
+
+
+def _always_leaves(stmts):
+    for s in stmts:
+        if isinstance(s, (ast.Raise, ast.Return)):
+            return True
+        if isinstance(s, ast.If) and s.orelse and _always_leaves(s.body) and _always_leaves(s.orelse):
+            return True
+    return False
+
+
 def unroll_const_loops(fn, consts, single=frozenset(), limit=64):
-    """`for a, b in TABLE: body` with TABLE a literal tuple/list (in place, or a module constant assigned once) and a body without
-    break/continue/rebinding of the loop names  ->  the body repeated with the row's literals substituted.  `getattr(x, "name")` with a
-    constant name is folded to x.name.  Exact for such loops: iteration order and early returns are preserved."""
-    class Fold(ast.NodeTransformer):
-        def visit_Call(self, node):
-            self.generic_visit(node)
-            if isinstance(node.func, ast.Name) and node.func.id == "getattr" and len(node.args) == 2 and isinstance(node.args[1], ast.Constant) \
-                    and isinstance(node.args[1].value, str) and node.args[1].value.isidentifier() and not node.keywords:
-                return ast.copy_location(ast.Attribute(value=node.args[0], attr=node.args[1].value, ctx=ast.Load()), node)
-            return node
+    """`for a, b in TABLE: body` with TABLE a literal tuple/list (in place, or a module constant assigned once) and a body that does not
+    rebind the loop names:
+      - no break/continue: the body repeated with the row's literals substituted (exact: order and early returns are preserved);
+      - search loop `for row in TABLE: if C: [S;] break` [else: E] followed by REST: `if C[row1]: S[row1]; REST[row1] elif ... else: E;
+        REST[last row]` - the rest of the enclosing block becomes the continuation of the break, because it reads the loop names."""
+    def rows_of(node):
+        it = node.iter
+        if isinstance(it, ast.Name) and it.id in consts and it.id in single:
+            it = consts[it.id]
+        if not isinstance(it, (ast.Tuple, ast.List)) or len(it.elts) > limit or not it.elts:
+            return None
+        names = [node.target.id] if isinstance(node.target, ast.Name) else (
+            [e.id for e in node.target.elts] if isinstance(node.target, ast.Tuple) and all(isinstance(e, ast.Name) for e in node.target.elts) else None)
+        if names is None:
+            return None
+        for b_ in node.body + node.orelse:
+            if _stored_names(b_) & set(names):
+                return None
+        rows = []
+        local = _stored_names(fn)
 
-    class U(ast.NodeTransformer):
-        def visit_For(self, node):
-            self.generic_visit(node)
-            it = node.iter
-            if isinstance(it, ast.Name) and it.id in consts and it.id in single:
-                it = consts[it.id]
-            if not isinstance(it, (ast.Tuple, ast.List)) or node.orelse or len(it.elts) > limit or not it.elts:
-                return node
-            names = [node.target.id] if isinstance(node.target, ast.Name) else (
-                [e.id for e in node.target.elts] if isinstance(node.target, ast.Tuple) and all(isinstance(e, ast.Name) for e in node.target.elts) else None)
-            if names is None:
-                return node
-            for n in ast.walk(node):
-                if n is not node and isinstance(n, (ast.Break, ast.Continue, ast.For, ast.While)):
-                    return node
-            for b in node.body:
-                if _stored_names(b) & set(names):
-                    return node
-            out = []
-            for row in it.elts:
-                if isinstance(row, ast.Starred):
-                    return node
-                if isinstance(node.target, ast.Name):
-                    vals = [row]
+        def constant_like(e):
+            """a literal, or a reference to something of module level (np.exp, a class, a helper function) - never state of the call"""
+            if isinstance(e, ast.Constant):
+                return True
+            if isinstance(e, ast.Name):
+                return e.id not in local
+            if isinstance(e, ast.Attribute):
+                return constant_like(e.value)
+            if isinstance(e, (ast.Tuple, ast.List)):
+                return all(constant_like(x) for x in e.elts)
+            if isinstance(e, ast.Lambda):
+                return True
+            return False
+        if not all(constant_like(r_) for r_ in it.elts):
+            return None
+        for row in it.elts:
+            if isinstance(row, ast.Starred):
+                return None
+            if isinstance(node.target, ast.Name):
+                rows.append({names[0]: row})
+            else:
+                if not isinstance(row, (ast.Tuple, ast.List)) or len(row.elts) != len(names):
+                    return None
+                rows.append(dict(zip(names, row.elts)))
+        return names, rows
+
+    def subst(stmts, mapping):
+        ren = _Rename({}, mapping)
+        return [ren.visit(copy.deepcopy(x)) for x in stmts]
+
+    def fblock(stmts):
+        out = []
+        for i, s in enumerate(stmts):
+            if not isinstance(s, ast.For):
+                out.append(s)
+                continue
+            r = rows_of(s)
+            if r is None:
+                out.append(s)
+                continue
+            names, rows = r
+            inner = [n for n in ast.walk(s) if n is not s and isinstance(n, (ast.Break, ast.Continue, ast.For, ast.While))]
+            if not inner and not s.orelse:
+                for row in rows:
+                    out.extend(subst(s.body, row))
+                continue
+            # search loop
+            if len(s.body) == 1 and isinstance(s.body[0], ast.If) and not s.body[0].orelse and s.body[0].body and isinstance(s.body[0].body[-1], ast.Break) \
+                    and len(inner) == 1 and inner[0] is s.body[0].body[-1]:
+                test, found = s.body[0].test, s.body[0].body[:-1]
+                rest = stmts[i + 1:]
+                if len(rest) > 12 or any(_stored_names(x) & set(names) for x in rest):
+                    out.append(s)
+                    continue
+                chain = list(s.orelse)
+                if not _always_leaves(chain):
+                    chain = chain + subst(rest, rows[-1])
+                for row in reversed(rows):
+                    t = subst([ast.Expr(value=test)], row)[0].value
+                    chain = [ast.copy_location(ast.If(test=t, body=subst(found, row) + subst(rest, row) or [ast.Pass()], orelse=chain), s)]
+                out.extend(chain)
+                return out                     # the rest of the block has been absorbed
+            out.append(s)
+        return out
+    return _map_blocks(fn, fblock)
+
+
+class _Fold(ast.NodeTransformer):
+    """constant folding that never changes meaning: getattr(x, "name") -> x.name; (lambda a: E)(v) -> E[a := v];
+    f(*(a, b)) -> f(a, b); module-level string constants bound exactly once -> their literal"""
+
+    def __init__(self, strconsts, classconsts=None):
+        self.strconsts = strconsts
+        self.classconsts = classconsts or {}       # module constants that are tuples of class references, for isinstance(x, NAME)
+
+    def visit_Name(self, node):
+        if isinstance(node.ctx, ast.Load) and node.id in self.strconsts:
+            return ast.copy_location(ast.Constant(value=self.strconsts[node.id]), node)
+        return node
+
+    def visit_BinOp(self, node):
+        self.generic_visit(node)
+        if isinstance(node.op, ast.Add) and isinstance(node.left, ast.Constant) and isinstance(node.right, ast.Constant) \
+                and isinstance(node.left.value, str) and isinstance(node.right.value, str):
+            return ast.copy_location(ast.Constant(value=node.left.value + node.right.value), node)
+        return node
+
+    def visit_Call(self, node):
+        self.generic_visit(node)
+        if isinstance(node.func, ast.Name) and node.func.id == "getattr" and len(node.args) == 2 and isinstance(node.args[1], ast.Constant) \
+                and isinstance(node.args[1].value, str) and node.args[1].value.isidentifier() and not node.keywords:
+            return ast.copy_location(ast.Attribute(value=node.args[0], attr=node.args[1].value, ctx=ast.Load()), node)
+        if isinstance(node.func, ast.Name) and node.func.id in ("isinstance", "issubclass") and len(node.args) == 2 and isinstance(node.args[1], ast.Name) \
+                and node.args[1].id in self.classconsts:
+            node.args[1] = copy.deepcopy(self.classconsts[node.args[1].id])
+        if any(isinstance(a_, ast.Starred) and isinstance(a_.value, (ast.Tuple, ast.List)) for a_ in node.args):
+            args = []
+            for a_ in node.args:
+                if isinstance(a_, ast.Starred) and isinstance(a_.value, (ast.Tuple, ast.List)):
+                    args.extend(a_.value.elts)
                 else:
-                    if not isinstance(row, (ast.Tuple, ast.List)) or len(row.elts) != len(names):
-                        return node
-                    vals = row.elts
-                ren = _Rename({}, dict(zip(names, vals)))
-                for b in node.body:
-                    out.append(Fold().visit(ren.visit(copy.deepcopy(b))))
-            for o in out:
-                ast.copy_location(o, node)
-                ast.fix_missing_locations(o)
-            return out
+                    args.append(a_)
+            node.args = args
+        if isinstance(node.func, ast.Lambda) and not node.keywords and not any(isinstance(a_, ast.Starred) for a_ in node.args):
+            la = node.func.args
+            ps = [x.arg for x in la.posonlyargs + la.args]
+            if len(ps) == len(node.args) and not la.vararg and not la.kwarg and not la.kwonlyargs and not la.defaults:
+                return ast.copy_location(_Rename({}, dict(zip(ps, node.args))).visit(copy.deepcopy(node.func.body)), node)
+        return node
 
-    fn = U().visit(fn)
+
+def fold_constants(fn, consts, single):
+    strconsts = {}
+    local = _stored_names(fn)
+    for k, v in consts.items():
+        if k in single and k not in local and isinstance(v, ast.Constant) and isinstance(v.value, str):
+            strconsts[k] = v.value
+    classconsts = {}
+    for k, v in consts.items():
+        if k in single and k not in local and isinstance(v, ast.Tuple) and v.elts and all(isinstance(e, (ast.Name, ast.Attribute)) for e in v.elts):
+            classconsts[k] = v
+    fn = _Fold(strconsts, classconsts).visit(fn)
     ast.fix_missing_locations(fn)
     return fn
 
@@ -466,32 +652,154 @@ class _ReplaceNode(ast.NodeTransformer):
         return self.generic_visit(node)
 
 
-def inline_function(ix, f, depth=2, _stack=(), keep=frozenset()):
+def _resolve_helper(ix, f, call, keep, stack=()):
+    """the Func a call refers to, when it is a package function the rules do not know by name and that can be analysed in place"""
+    g = None
+    if isinstance(call.func, ast.Name):
+        q = ix.resolve_name(f.mod, call.func.id)
+        g = ix.funcs.get(q)
+    elif isinstance(call.func, ast.Attribute) and isinstance(call.func.value, ast.Name) and call.func.value.id in ("self", "cls") and f.cls:
+        g = ix.funcs.get("%s.%s" % (f.cls, call.func.attr))
+    elif isinstance(call.func, ast.Attribute) and isinstance(call.func.value, ast.Name) and f.cls and call.func.value.id == f.cls.split(".")[-1]:
+        g = ix.funcs.get("%s.%s" % (f.cls, call.func.attr))         # ClassName.static_helper(...)
+    if g is None or g.qual == f.qual or g.qual in stack or g.qual in keep or g.name.startswith("__"):
+        return None
+    decos = [u(d) for d in g.node.decorator_list]
+    if any(d not in ("staticmethod", "classmethod") for d in decos):
+        return None
+    for n in ast.walk(g.node):
+        if isinstance(n, (ast.Yield, ast.YieldFrom, ast.Global, ast.Nonlocal, ast.Await)):
+            return None
+        if isinstance(n, ast.Call) and isinstance(n.func, ast.Name) and n.func.id == g.name:
+            return None
+    return g
+
+
+def _bind_args(g, gnode, call):
+    """parameter -> argument expression for this call (a *args parameter is bound to the tuple of the extra positional arguments)"""
+    params = [a.arg for a in gnode.args.posonlyargs + gnode.args.args]
+    if g.cls and "staticmethod" not in [u(d) for d in gnode.decorator_list] and params and params[0] in ("self", "cls"):
+        params = params[1:]
+    if any(isinstance(a, ast.Starred) for a in call.args) or any(kw.arg is None for kw in call.keywords) or gnode.args.kwarg:
+        return None
+    mapping = dict(zip(params, call.args))
+    extra = call.args[len(params):]
+    if gnode.args.vararg:
+        mapping[gnode.args.vararg.arg] = ast.Tuple(elts=list(extra), ctx=ast.Load())
+    elif extra:
+        return None
+    kwonly = [a.arg for a in gnode.args.kwonlyargs]
+    for kw in call.keywords:
+        if kw.arg not in params + kwonly or kw.arg in mapping:
+            return None
+        mapping[kw.arg] = kw.value
+    defaults = gnode.args.defaults
+    for p_, d in zip(params[len(params) - len(defaults):], defaults):
+        mapping.setdefault(p_, d)
+    for a, d in zip(gnode.args.kwonlyargs, gnode.args.kw_defaults):
+        if d is not None:
+            mapping.setdefault(a.arg, d)
+    allp = params + kwonly + ([gnode.args.vararg.arg] if gnode.args.vararg else [])
+    if set(allp) - set(mapping):
+        return None
+    return allp, mapping
+
+
+def inline_expressions(ix, f, fn, keep=frozenset(), depth=3):
+    """calls to unknown helpers whose body is `return <expr>` (after a docstring and once-bound pure locals) are replaced by that
+    expression wherever they occur (comprehensions and lambdas included) when the arguments are plain names / attributes / constants /
+    subscripts, so that substituting them cannot change what is evaluated or how often"""
+    def simple(e):
+        if isinstance(e, (ast.Name, ast.Constant)):
+            return True
+        if isinstance(e, ast.Attribute):
+            return simple(e.value)
+        if isinstance(e, ast.Subscript):
+            return simple(e.value) and simple(e.slice)
+        if isinstance(e, (ast.Tuple, ast.List)):
+            return all(simple(x) for x in e.elts)
+        if isinstance(e, ast.UnaryOp):
+            return simple(e.operand)
+        if isinstance(e, ast.Call) and isinstance(e.func, ast.Attribute) and not e.args and not e.keywords:
+            return simple(e.func.value)            # accessor call without arguments: ctx.name()
+        return False
+
+    class T(ast.NodeTransformer):
+        def __init__(self, d):
+            self.d = d
+
+        def visit_Call(self, node):
+            self.generic_visit(node)
+            if self.d <= 0:
+                return node
+            g = _resolve_helper(ix, f, node, keep)
+            if g is None:
+                return node
+            gnode = getattr(g, "orig", None) or g.node
+            ret, binds = single_return(gnode)
+            if ret is None:
+                return node
+            b = _bind_args(g, gnode, node)
+            if b is None:
+                return node
+            allp, mapping = b
+            uses = {}
+            for x in ast.walk(ret):
+                if isinstance(x, ast.Name):
+                    uses[x.id] = uses.get(x.id, 0) + 1
+            for bv in binds.values():
+                for x in ast.walk(bv):
+                    if isinstance(x, ast.Name):
+                        uses[x.id] = uses.get(x.id, 0) + 1
+            for p_ in allp:
+                if not simple(mapping[p_]) and uses.get(p_, 0) > 1:
+                    return node
+            expr = copy.deepcopy(ret)
+            for name in reversed(list(binds)):
+                expr = _Sub({name: binds[name]}).visit(expr)
+            expr = _Sub(mapping).visit(expr)
+            expr = T(self.d - 1).visit(expr)
+            return ast.copy_location(expr, node)
+    fn = T(depth).visit(fn)
+    ast.fix_missing_locations(fn)
+    return fn
+
+
+def inline_function(ix, f, depth=2, _stack=(), keep=frozenset(), fn=None):
     """deep copy of f.node in which calls to package helpers the rules do not know by name are replaced by the helper's body: the
-    statement containing the call becomes the continuation of every `return` of the helper (tail shapes only: returns inside loops,
-    try blocks, recursion, generators, *args are left alone)"""
-    fn = copy.deepcopy(f.node)
+    statement containing the call (for an assignment from a helper with several returns: that statement and the rest of its block)
+    becomes the continuation of every `return` of the helper.  Only tail shapes are inlined: helpers that return from inside loops or
+    try blocks, recursive helpers, generators and **kwargs helpers are left alone."""
+    fn = copy.deepcopy(f.node) if fn is None else fn
     counter = [0]
-    caller_names = _stored_names(fn)
+    # the caller's own local names (names of nested function definitions' bodies are theirs, not the caller's)
+    caller_names = set()
+    for st_ in fn.body:
+        if not isinstance(st_, (ast.FunctionDef, ast.ClassDef)):
+            caller_names |= _stored_names(st_)
+    caller_names |= {a.arg for a in fn.args.posonlyargs + fn.args.args + fn.args.kwonlyargs}
+    origin = {}                # local name -> helper whose inlining introduced it (its activations may share the name: a helper's own
+                               # locals are always assigned before they are read)
+    # closures defined at the top of this function (`def declare_array(A): nonlocal ...`) are helpers like any other
+    local_defs = {n.name: n for n in fn.body if isinstance(n, ast.FunctionDef)}
+
+    class LocalFunc:
+        cls = None
+
+        def __init__(self, node):
+            self.node = self.orig = node
+            self.name = node.name
+            self.qual = "%s.<locals>.%s" % (f.qual, node.name)
+            self.mod = f.mod
 
     def resolve(call):
-        g = None
-        if isinstance(call.func, ast.Name):
-            q = ix.resolve_name(f.mod, call.func.id)
-            g = ix.funcs.get(q)
-        elif isinstance(call.func, ast.Attribute) and isinstance(call.func.value, ast.Name) and call.func.value.id in ("self", "cls") and f.cls:
-            g = ix.funcs.get("%s.%s" % (f.cls, call.func.attr))
-        if g is None or g.qual == f.qual or g.qual in _stack or g.qual in keep or g.name.startswith("__"):
-            return None
-        decos = [u(d) for d in g.node.decorator_list]
-        if any(d not in ("staticmethod", "classmethod") for d in decos):
-            return None
-        for n in ast.walk(g.node):
-            if isinstance(n, (ast.Yield, ast.YieldFrom, ast.Global, ast.Nonlocal, ast.Await)):
+        if isinstance(call.func, ast.Name) and call.func.id in local_defs:
+            g = local_defs[call.func.id]
+            if g.decorator_list or any(isinstance(n, (ast.Yield, ast.YieldFrom, ast.Global, ast.Await)) for n in ast.walk(g)) \
+                    or any(isinstance(n, ast.Call) and isinstance(n.func, ast.Name) and n.func.id == g.name for n in ast.walk(g)):
                 return None
-            if isinstance(n, ast.Call) and isinstance(n.func, ast.Name) and n.func.id == g.name:
-                return None
-        return g
+            return LocalFunc(g)
+        return _resolve_helper(ix, f, call, keep, _stack)
 
     def expand(call, k, same_name=None):
         """k(value expr or None) -> statements continuing after the helper returned that value"""
@@ -502,39 +810,35 @@ def inline_function(ix, f, depth=2, _stack=(), keep=frozenset()):
         body = [s for s in gnode.body if not (isinstance(s, ast.Expr) and isinstance(s.value, ast.Constant))]
         if not body:
             return None
-        params = [a.arg for a in gnode.args.posonlyargs + gnode.args.args]
-        if g.cls and "staticmethod" not in [u(d) for d in gnode.decorator_list] and params and params[0] in ("self", "cls"):
-            params = params[1:]
-        if any(isinstance(a, ast.Starred) for a in call.args) or any(kw.arg is None for kw in call.keywords) or gnode.args.vararg or gnode.args.kwarg:
+        b = _bind_args(g, gnode, call)
+        if b is None:
             return None
-        mapping = dict(zip(params, call.args))
-        kwonly = [a.arg for a in gnode.args.kwonlyargs]
-        for kw in call.keywords:
-            mapping[kw.arg] = kw.value
-        defaults = gnode.args.defaults
-        for p_, d in zip(params[len(params) - len(defaults):], defaults):
-            mapping.setdefault(p_, d)
-        for a, d in zip(gnode.args.kwonlyargs, gnode.args.kw_defaults):
-            if d is not None:
-                mapping.setdefault(a.arg, d)
-        params = params + kwonly
-        if set(params) - set(mapping) or len(call.args) > len(params):
-            return None
+        params, mapping = b
+        shared = set()
+        for s in body:
+            if isinstance(s, ast.Nonlocal):
+                shared.update(s.names)              # names of the enclosing function: not renamed, not parameters
+        body = [s for s in body if not isinstance(s, ast.Nonlocal)]
         helper_stores = set()
         for s in body:
             helper_stores |= _stored_names(s)
+        helper_stores -= shared
         counter[0] += 1
         names, exprs, pre = {}, {}, []
         for p_ in params:
             if p_ in helper_stores:
-                new = p_ if p_ not in caller_names else "_h%d_%s" % (counter[0], p_)
+                new = p_ if (p_ not in caller_names or origin.get(p_) == g.qual) else "_h%d_%s" % (counter[0], p_)
+                if p_ not in caller_names:
+                    origin[p_] = g.qual
                 names[p_] = new
                 pre.append(ast.Assign(targets=[ast.Name(id=new, ctx=ast.Store())], value=copy.deepcopy(mapping[p_]), lineno=call.lineno, col_offset=0))
             else:
                 exprs[p_] = mapping[p_]
         for nm in helper_stores - set(params):
-            if nm in caller_names and nm != same_name:
+            if nm in caller_names and nm != same_name and origin.get(nm) != g.qual:
                 names[nm] = "_h%d_%s" % (counter[0], nm)
+            elif nm not in caller_names:
+                origin[nm] = g.qual
         ren = _Rename(names, exprs)
         body = [ren.visit(copy.deepcopy(s)) for s in body]
         try:
@@ -546,19 +850,30 @@ def inline_function(ix, f, depth=2, _stack=(), keep=frozenset()):
             caller_names.update(_stored_names(s))
         return out or [ast.Pass(lineno=call.lineno, col_offset=0)]
 
-    def simple_expand(s):
+    def value_returns(g):
+        return len([r for r in _shallow_returns((getattr(g, "orig", None) or g.node).body) if r.value is not None])
+
+    def simple_expand(s, rest):
+        """-> (replacement statements, rest absorbed?)"""
         if isinstance(s, ast.Expr) and isinstance(s.value, ast.Call):
             r = expand(s.value, lambda v: [])
             if r is not None:
-                return r
+                return r, False
         if isinstance(s, ast.Assign) and len(s.targets) == 1 and isinstance(s.value, ast.Call) and resolve(s.value) is not None:
             tgt = s.targets[0]
+            # `value = render(v)` followed by the one statement that uses it: that statement becomes the continuation of every return
+            absorb = isinstance(tgt, ast.Name) and value_returns(resolve(s.value)) > 1 and len(rest) == 1 and isinstance(rest[0], (ast.Expr, ast.Assign, ast.AugAssign, ast.Return)) and \
+                any(isinstance(x, ast.Name) and x.id == tgt.id for x in ast.walk(rest[0]))
 
             def k(v):
                 if isinstance(v, ast.Name) and isinstance(tgt, ast.Name) and v.id == tgt.id:
-                    return []
-                return [ast.copy_location(ast.Assign(targets=[copy.deepcopy(tgt)], value=v if v is not None else ast.Constant(value=None)), s)]
-            return expand(s.value, k, same_name=tgt.id if isinstance(tgt, ast.Name) else None)
+                    first = []
+                else:
+                    first = [ast.copy_location(ast.Assign(targets=[copy.deepcopy(tgt)], value=v if v is not None else ast.Constant(value=None)), s)]
+                return first + (copy.deepcopy(rest) if absorb else [])
+            r = expand(s.value, k, same_name=tgt.id if isinstance(tgt, ast.Name) else None)
+            if r is not None:
+                return r, absorb
         if isinstance(s, (ast.Expr, ast.Assign, ast.AugAssign, ast.Return, ast.AnnAssign)):
             for call in _calls_outside_scopes(s):
                 # k works on a copy of s: locate the call by its position in the walk
@@ -570,15 +885,17 @@ def inline_function(ix, f, depth=2, _stack=(), keep=frozenset()):
                     return [_ReplaceNode(tgt, v if v is not None else ast.Constant(value=None)).visit(c)]
                 rep = expand(call, k)
                 if rep is not None:
-                    return rep
-        return None
+                    return rep, False
+        return None, False
 
     def block(stmts, d):
         out = []
-        for s in stmts:
-            rep = simple_expand(s) if d > 0 else None
+        for i, s in enumerate(stmts):
+            rep, absorbed = simple_expand(s, stmts[i + 1:]) if d > 0 else (None, False)
             if rep is not None:
                 out.extend(block(rep, d - 1))
+                if absorbed:
+                    return out
                 continue
             for field in ("body", "orelse", "finalbody"):
                 sub = getattr(s, field, None)
@@ -594,5 +911,151 @@ def inline_function(ix, f, depth=2, _stack=(), keep=frozenset()):
         return out
 
     fn.body = block(fn.body, depth)
+    # a closure all of whose calls were expanded is no longer referenced: it is dropped from the analysed body
+    for name, d in list(local_defs.items()):
+        refs = [n for st_ in fn.body if st_ is not d for n in ast.walk(st_) if isinstance(n, ast.Name) and n.id == name]
+        if not refs and d in fn.body:
+            fn.body.remove(d)
     ast.fix_missing_locations(fn)
+    return fn
+
+
+def propagate_aliases(fn):
+    """a local bound exactly once to a plain attribute chain of a never-rebound name (`program = self._program`, `token = expr.start`) is
+    replaced by that chain in its later uses, provided no prefix of the chain is assigned anywhere in the function"""
+    stores = {}
+    attr_stores = set()
+    for n in ast.walk(fn):
+        if isinstance(n, ast.Name) and isinstance(n.ctx, (ast.Store, ast.Del)):
+            stores[n.id] = stores.get(n.id, 0) + 1
+        elif isinstance(n, ast.Attribute) and isinstance(n.ctx, (ast.Store, ast.Del)):
+            attr_stores.add(" ".join(u(n).split()))
+        elif isinstance(n, (ast.Global, ast.Nonlocal)):
+            for x in n.names:
+                stores[x] = stores.get(x, 0) + 2
+    params = {a.arg for a in fn.args.posonlyargs + fn.args.args + fn.args.kwonlyargs}
+
+    def chain(e):
+        parts = []
+        while isinstance(e, ast.Attribute):
+            parts.append(e.attr)
+            e = e.value
+        if isinstance(e, ast.Name) and parts:
+            return e.id, list(reversed(parts))
+        return None
+
+    cands = {}
+    for n in ast.walk(fn):
+        if isinstance(n, ast.Assign) and len(n.targets) == 1 and isinstance(n.targets[0], ast.Name) and stores.get(n.targets[0].id) == 1 and n.targets[0].id not in params:
+            c = chain(n.value)
+            if c is None:
+                continue
+            root, parts = c
+            if stores.get(root, 0) != 0 or (root not in params and root != "self"):
+                continue
+            prefixes = {root + "".join("." + p_ for p_ in parts[:k]) for k in range(1, len(parts) + 1)}
+            if prefixes & attr_stores:
+                continue
+            cands[n.targets[0].id] = (n, n.value)
+    if not cands:
+        return fn
+
+    class S(ast.NodeTransformer):
+        def visit_Name(self, node):
+            if isinstance(node.ctx, ast.Load) and node.id in cands:
+                a, v = cands[node.id]
+                if getattr(node, "_ord", 1) > getattr(a, "_ord", 0):
+                    return ast.copy_location(copy.deepcopy(v), node)
+            return node
+    from .index import number_nodes
+    number_nodes(fn)
+    fn = S().visit(fn)
+    ast.fix_missing_locations(fn)
+    return fn
+
+
+def eliminate_temporaries(fn):
+    """`x = E` immediately followed by a simple statement that reads x exactly once as a piece of a larger string, where nothing but
+    names / constants / attribute loads is evaluated before that read and x is read nowhere else in the function: the temporary is
+    replaced by E (`value = f(v); out.append("{}={}".format(k, value))` reads `out.append("{}={}".format(k, f(v)))`)"""
+    from .ts import postorder
+    params = {a.arg for a in fn.args.posonlyargs + fn.args.args + fn.args.kwonlyargs}
+    reads = {}
+    for n in ast.walk(fn):
+        if isinstance(n, ast.Name) and isinstance(n.ctx, ast.Load):
+            reads[n.id] = reads.get(n.id, 0) + 1
+    pairs = {}
+
+    def scan(stmts):
+        for i in range(len(stmts) - 1):
+            a, b = stmts[i], stmts[i + 1]
+            if isinstance(a, ast.Assign) and len(a.targets) == 1 and isinstance(a.targets[0], ast.Name) and isinstance(b, (ast.Expr, ast.Assign, ast.Return, ast.Raise, ast.AugAssign)):
+                x = a.targets[0].id
+                if x in params:
+                    continue
+                occ = []
+                inside_scope = False
+                for n in postorder(b):
+                    if isinstance(n, ast.Name) and n.id == x and isinstance(n.ctx, ast.Load):
+                        occ.append(n)
+                if len(occ) != 1 or not _string_uses_only(b, x):
+                    continue                   # only temporaries that are a piece of a larger string
+                for sc in ast.walk(b):
+                    if isinstance(sc, (ast.Lambda, ast.ListComp, ast.SetComp, ast.DictComp, ast.GeneratorExp)) and any(m is occ[0] for m in ast.walk(sc)):
+                        inside_scope = True
+                if inside_scope:
+                    continue
+                pure = True
+                for n in postorder(b):
+                    if n is occ[0]:
+                        break
+                    if not isinstance(n, (ast.Name, ast.Constant, ast.Attribute, ast.Load, ast.Store, ast.expr_context)):
+                        pure = False
+                        break
+                if isinstance(b, (ast.Assign, ast.AugAssign)) and any(isinstance(n, ast.Name) and n.id == x and isinstance(n.ctx, ast.Store) for n in ast.walk(b)):
+                    pure = False
+                if pure:
+                    pairs.setdefault(x, []).append((stmts, a, b, occ[0]))
+        for s_ in stmts:
+            for field in ("body", "orelse", "finalbody"):
+                sub = getattr(s_, field, None)
+                if isinstance(sub, list) and sub and isinstance(sub[0], ast.stmt):
+                    scan(sub)
+            if isinstance(s_, ast.Try):
+                for h in s_.handlers:
+                    scan(h.body)
+    scan(fn.body)
+    for x, lst in pairs.items():
+        if reads.get(x, 0) != len(lst):
+            continue
+        for stmts, a, b, occ in lst:
+            if a not in stmts or b not in stmts:
+                continue
+            new_b = _ReplaceNode(occ, a.value).visit(b)
+            i = stmts.index(a)
+            stmts[i:i + 2] = [new_b]
+    ast.fix_missing_locations(fn)
+    return fn
+
+
+def normal_form(ix, f, keep):
+    """the analysis normal form of one function (DESIGN 15.3)"""
+    consts, single = ix.const_env(f.mod)
+    fn = copy.deepcopy(f.node)
+    prev = None
+    for _ in range(3):
+        fn = desugar_match(fn)
+        fn = fold_constants(fn, consts, single)
+        fn = unroll_const_loops(fn, consts, single)
+        fn = inline_function(ix, f, keep=keep, fn=fn)
+        fn = desugar_match(fn)
+        fn = inline_expressions(ix, f, fn, keep=keep)
+        fn = fold_constants(fn, consts, single)
+        fn = propagate_aliases(fn)
+        fn = propagate_templates(fn)
+        fn = eliminate_temporaries(fn)
+        cur = ast.dump(fn)
+        if cur == prev:
+            break
+        prev = cur
     return fn
